@@ -393,6 +393,19 @@ func suiteV06(c *vctx) {
 			}
 			s.do(q)
 		}
+		// no two tokens this instance issued share an encryption nonce (a repeated nonce gives the key
+		// stream and the authentication key away: the gate above would then be forgeable)
+		{
+			seen := map[string]bool{}
+			dup := 0
+			for _, is := range s.sealed {
+				if seen[string(is.nonce)] {
+					dup++
+				}
+				seen[string(is.nonce)] = true
+			}
+			c.emit(fmt.Sprintf("law.C07.issued_nonces_distinct tokens=%d duplicates=%d", len(s.sealed), dup), vtf(dup == 0))
+		}
 	}
 }
 
